@@ -20,7 +20,7 @@ fn expect_eq(what: &str, got: &[u8], want: &[u8]) -> CaseResult {
 
 fn sign1_case(g: &mut Gen, ctx: &mut Ctx) -> CaseResult {
     let prot = gen_prot(g, ctx)?;
-    let aad = gen_class_bytes(g);
+    let aad = gen_aad(g, &prot.p);
     let payload = gen_class_bytes(g);
     let mode = g.below(3); // 0 embedded, 1 detached, 2 absent (no payload at all)
     ctx.classf(format!("sign1:{}", ["embedded", "detached", "absent"][mode]));
@@ -161,7 +161,7 @@ fn sign_case(g: &mut Gen, ctx: &mut Ctx) -> CaseResult {
     } else {
         (gen_prot(g, ctx)?, (0..nsig).map(|_| gen_prot(g, ctx)).collect::<Result<_, _>>()?)
     };
-    let aad = gen_class_bytes(g);
+    let aad = gen_aad(g, &body.p);
     let payload = gen_class_bytes(g);
     let mode = g.below(3);
     ctx.classf(format!("sign:{}", ["embedded", "detached", "absent"][mode]));
@@ -258,7 +258,7 @@ fn general_case(g: &mut Gen, ctx: &mut Ctx) -> CaseResult {
     } else {
         (gen_prot(g, ctx)?, if g.bool() { Some(gen_prot(g, ctx)?) } else { None })
     };
-    let aad = gen_class_bytes(g);
+    let aad = gen_aad(g, &body.p);
     let payload = gen_class_bytes(g);
     let ci = g.below(3);
     let c = [SignatureContext::CoseSignature, SignatureContext::CoseSign1, SignatureContext::CounterSignature][ci];
@@ -327,12 +327,82 @@ fn wire_carrier_case(g: &mut Gen, ctx: &mut Ctx) -> CaseResult {
     }
 }
 
+/// Whatever the decoder accepts (messages with one planted fault, most of which it must reject),
+/// the to-be-signed bytes carry the *received* protected bytes of body and signer, read off the
+/// wire with the harness' own reader.
+fn accepted_any_case(g: &mut Gen, ctx: &mut Ctx) -> CaseResult {
+    let kind = *g.pick(&[Kind::Sign1, Kind::Sign]);
+    let item = gen_msg(g, kind, &mut Faults::one(), 1);
+    let o = if g.bool() { StyleOpts::NONE } else { StyleOpts::ALL };
+    let (bytes, _) = styled(&item, g, o);
+    let slots = match wire_slots(&bytes) {
+        Some(s) => s,
+        None => return Ok(()),
+    };
+    let (w, payload) = match (slot_bytes(&slots, 0), slot_bytes(&slots, 2)) {
+        (Some(w), Some(p)) => (w, p),
+        _ => return Ok(()),
+    };
+    let aad = g.small_bytes();
+    if kind == Kind::Sign1 {
+        let sig = match slot_bytes(&slots, 3) {
+            Some(s) => s,
+            None => return Ok(()),
+        };
+        let v = match CoseSign1::from_slice(&bytes) {
+            Ok(v) => v,
+            Err(_) => return Ok(()),
+        };
+        ctx.class("accepted-any:COSE_Sign1");
+        ctx.nontrivial(hash_bytes(&[&b"a"[..], &bytes, &aad].concat()));
+        let mut seen = None;
+        let _ = v.verify_signature(&aad, |s: &[u8], d: &[u8]| -> Result<(), u8> {
+            seen = Some((s.to_vec(), d.to_vec()));
+            Ok(())
+        });
+        let (s, d) = seen.ok_or("verify_signature did not call the verifier")?;
+        ensure!(s == sig, "accepted COSE_Sign1: verifier handed a signature other than the received one");
+        return expect_eq(&format!("accepted COSE_Sign1 ({}): verify_signature", hex_trunc(&bytes, 60)), &d, &ref_sig_structure("Signature1", &w, None, &aad, &payload));
+    }
+    let signers = match slots.get(3) {
+        Some(crate::cbor::Item::Array(a)) => a.clone(),
+        _ => return Ok(()),
+    };
+    let v = match CoseSign::from_slice(&bytes) {
+        Ok(v) => v,
+        Err(_) => return Ok(()),
+    };
+    ctx.class("accepted-any:COSE_Sign");
+    ctx.nontrivial(hash_bytes(&[&b"a"[..], &bytes, &aad].concat()));
+    ensure!(v.signatures.len() == signers.len(), "accepted COSE_Sign: {} signers decoded from {} on the wire", v.signatures.len(), signers.len());
+    for (i, sg) in signers.iter().enumerate() {
+        let ss = match sg {
+            crate::cbor::Item::Array(a) => a,
+            _ => return Ok(()),
+        };
+        let (ws, sig) = match (slot_bytes(ss, 0), slot_bytes(ss, 2)) {
+            (Some(w), Some(s)) => (w, s),
+            _ => return Ok(()),
+        };
+        let mut seen = None;
+        let _ = v.verify_signature(i, &aad, |s: &[u8], d: &[u8]| -> Result<(), u8> {
+            seen = Some((s.to_vec(), d.to_vec()));
+            Ok(())
+        });
+        let (s, d) = seen.ok_or("verify_signature did not call the verifier")?;
+        ensure!(s == sig, "accepted COSE_Sign: signer {}: verifier handed another signature", i);
+        expect_eq(&format!("accepted COSE_Sign ({}): verify_signature({})", hex_trunc(&bytes, 60), i), &d, &ref_sig_structure("Signature", &w, Some(&ws), &aad, &payload))?;
+    }
+    Ok(())
+}
+
 fn case(g: &mut Gen, ctx: &mut Ctx) -> CaseResult {
-    match g.weighted(&[4, 4, 3, 3]) {
+    match g.weighted(&[4, 4, 3, 3, 2]) {
         0 => sign1_case(g, ctx),
         1 => sign_case(g, ctx),
         2 => general_case(g, ctx),
-        _ => wire_carrier_case(g, ctx),
+        3 => wire_carrier_case(g, ctx),
+        _ => accepted_any_case(g, ctx),
     }
 }
 
